@@ -16,6 +16,7 @@ import (
 	"fmt"
 	"math/big"
 	"os"
+	"strings"
 
 	"github.com/gcash/bchd/bchec"
 	"github.com/gcash/bchd/chaincfg"
@@ -285,6 +286,7 @@ func main() {
 				Net      int      `json:"net_index"`
 				Path     []uint32 `json:"path_indices"`
 				Neutered bool     `json:"neutered"`
+				Steps    []string `json:"steps_after_derivation"` // "String", "SetNet:<net index>", "Neuter", "Child:<index>", "Reparse"
 			} `json:"input"`
 		}
 		b, err := os.ReadFile(cfg.Replay)
@@ -295,6 +297,32 @@ func main() {
 			if k, _ := derive(seed, rp.Input.Net, rp.Input.Path); k != nil {
 				if rp.Input.Neutered {
 					k, _ = k.Neuter()
+				}
+				for _, st := range rp.Input.Steps {
+					var arg uint32
+					name := st
+					if j := strings.IndexByte(st, ':'); j >= 0 {
+						name = st[:j]
+						fmt.Sscan(st[j+1:], &arg)
+					}
+					switch name {
+					case "String":
+						_ = k.String()
+					case "SetNet":
+						k.SetNet(nets[int(arg)%len(nets)])
+					case "Neuter":
+						if nk, err := k.Neuter(); err == nil {
+							k = nk
+						}
+					case "Child":
+						if c, err := k.Child(arg); err == nil {
+							k = c
+						}
+					case "Reparse":
+						if pk, err := hdkeychain.NewKeyFromString(k.String()); err == nil {
+							k = pk
+						}
+					}
 				}
 				roundTrip(k, map[string]interface{}{"seed": rp.Input.Seed, "net_index": rp.Input.Net, "path_indices": rp.Input.Path, "neutered": rp.Input.Neutered}, false, rng.Fork("replay"))
 			}
@@ -338,6 +366,49 @@ func main() {
 		roundTrip(nk, what2, t%2 == 1, r)
 		if len(valid) < 40 {
 			valid = append(valid, k.String(), nk.String())
+		}
+	}
+	// keys whose network was changed after their string had been taken once, children derived publicly, children of
+	// parsed keys: all "keys the library produces" (review round 2)
+	r = rng.Fork("produced2")
+	for t := 0; t < scale(18, 120, 1000); t++ {
+		path := make([]uint32, 1+r.Intn(4))
+		for j := range path {
+			path[j] = randIndex(r)
+		}
+		seed := r.Bytes(vh.Pick(r, []int{16, 32, 64}))
+		a, b := t%len(nets), (t/len(nets)+t+1)%len(nets)
+		k, _ := derive(seed, a, path)
+		if k == nil {
+			continue
+		}
+		what := func(x string, steps ...string) map[string]interface{} {
+			return map[string]interface{}{"seed": vh.Hex(seed), "net": nets[a].Name, "net_index": a, "path_indices": path, "then": x, "steps_after_derivation": steps}
+		}
+		setB, setA := fmt.Sprintf("SetNet:%d", b), fmt.Sprintf("SetNet:%d", a)
+		s0 := k.String()
+		k.SetNet(nets[b])
+		if a != b && nets[a].HDPrivateKeyID != nets[b].HDPrivateKeyID && k.String() == s0 {
+			rep.Violate("C05:roundtrip", "String() does not reflect SetNet to a different network", what("String; SetNet("+nets[b].Name+"); String", "String", setB))
+		}
+		roundTrip(k, what("String; SetNet("+nets[b].Name+")", "String", setB), t%3 == 0, r)
+		nk, err := k.Neuter()
+		if err != nil {
+			continue
+		}
+		_ = nk.String()
+		nk.SetNet(nets[a])
+		roundTrip(nk, what("SetNet("+nets[b].Name+"); Neuter; String; SetNet("+nets[a].Name+")", "String", setB, "Neuter", "String", setA), t%3 == 1, r)
+		i := uint32(r.Intn(1 << 20))
+		if pc, err := nk.Child(i); err == nil {
+			roundTrip(pc, what(fmt.Sprintf("Neuter; Child(%d) of the public key", i), "String", setB, "Neuter", "String", setA, fmt.Sprintf("Child:%d", i)), t%3 == 2, r)
+		}
+		if pk, err := hdkeychain.NewKeyFromString(s0); err == nil {
+			for _, j := range []uint32{i, H + i} {
+				if c, err := pk.Child(j); err == nil {
+					roundTrip(c, what(fmt.Sprintf("NewKeyFromString(String()); Child(%d)", j), "Reparse", fmt.Sprintf("Child:%d", j)), false, r)
+				}
+			}
 		}
 	}
 	// targeted: private children whose scalar has one / two+ leading zero bytes (index scan with the reference)
@@ -419,7 +490,7 @@ func main() {
 		// every single-character substitution of the string (incl. characters outside the alphabet)
 		s := []byte(valid[vi])
 		for pos := 0; pos < len(s); pos++ {
-			for _, c := range []byte("123456789ABCDEFGHJKLMNPQRSTUVWXYZabcdefghijkmnopqrstuvwxyz0OIl +/") {
+			for _, c := range []byte("123456789ABCDEFGHJKLMNPQRSTUVWXYZabcdefghijkmnopqrstuvwxyz0OIl +/\x00\t\n\x7f\x80\xb1\xff") {
 				if c == s[pos] {
 					continue
 				}
@@ -434,6 +505,16 @@ func main() {
 			m[pos] ^= byte(1 + r.Intn(255))
 			parseOne(withChecksum(m), "payload_byte_recomputed_checksum", vi < 2 && pos%3 == 0)
 		}
+		// a valid string wrapped in / interrupted by characters outside the alphabet (white space, NUL, look-alikes,
+		// non-ASCII bytes): never accepted, in particular not "after trimming" (review round 2)
+		for ai, affix := range []string{" ", "\n", "\t", "\r\n", "\x00", "\u00a0", "\u200b", "\ufeff", "0", "O", "I", "l", "\x80", "\xff", "  ", " \n"} {
+			for _, v := range []string{affix + valid[vi], valid[vi] + affix, affix + valid[vi] + affix, valid[vi][:50] + affix + valid[vi][50:]} {
+				parseOne(v, "affix_outside_alphabet", vi < 2 && ai < 6)
+			}
+		}
+		// upper / lower case variants of the whole string
+		parseOne(strings.ToUpper(valid[vi]), "case_variant", vi < 2)
+		parseOne(strings.ToLower(valid[vi]), "case_variant", vi < 2)
 		// truncations / extensions of the string, leading '1' added / removed
 		for _, v := range []string{"1" + valid[vi], "11" + valid[vi], valid[vi][1:], valid[vi][:len(valid[vi])-1], valid[vi] + "1", valid[vi] + valid[vi], ""} {
 			parseOne(v, "string_length", vi < 2)
@@ -473,8 +554,8 @@ func main() {
 		m[0] = fb
 		pubs = append(pubs, m)
 	}
-	pubs = append(pubs, append([]byte{2}, make([]byte, 32)...))     // x = 0
-	pubs = append(pubs, append([]byte{3}, pbytes...))               // x = p
+	pubs = append(pubs, append([]byte{2}, make([]byte, 32)...))               // x = 0
+	pubs = append(pubs, append([]byte{3}, pbytes...))                         // x = p
 	pubs = append(pubs, append([]byte{2}, bytes.Repeat([]byte{0xff}, 32)...)) // x = 2^256-1
 	nOff := 0
 	for t := 0; nOff < scale(12, 60, 400) && t < 10000; t++ { // x with no square root of x^3+7 (off the curve)
